@@ -205,6 +205,15 @@ func cmdC06(seed uint64, tier, outdir string) {
 			if v != "" && marker == "a)" {
 				cls = "marker-letter-paren"
 			}
+			if v != "" && cls == "" {
+				// the marked line is an ignorable notice line as written: the marker pushes "copyright" out of the
+				// five-character window of the notice expressions, which see the line before the marker is removed
+				if _, ml := classifier.VerifTokenize([]byte(lines[i]+"\n"), true); len(ml) > 0 {
+					if _, ml2 := classifier.VerifTokenize([]byte(out[i]+"\n"), true); len(ml2) == 0 {
+						cls = "marker-before-notice-line"
+					}
+				}
+			}
 			emit("marker:"+marker, in.name, data, v, cls, nt)
 		}
 		// (H) hyphen split
